@@ -15,7 +15,7 @@ From Coq Require Import List Arith Permutation.
 From Coq Require Import ZArith.
 From BS Require Import Colls CollsProofs Parts PartsProofs SplitCap SplitCapProofs SplitRefine.
 From BS Require Word.
-From BS.gen Require SplitSites SplitFacts.
+From BS.gen Require SplitSites SplitFacts PartsFacts.
 Import ListNotations.
 
 Theorem C16_split_off_code_spec : forall (A : Type) (l : list A) a b, a <= b <= length l ->
@@ -175,6 +175,13 @@ Theorem C16_source_split_off_windows_tail_long :
   SplitSites.so_taillong_rhs_cap (Z.of_nat a) (Z.of_nat b) (Z.of_nat len) (Z.of_nat cap) = Word.Ok (Z.of_nat (wcap off)).
 Proof. exact split_off_taillong_refines. Qed.
 
+(* the shapes of the CURRENT BumpBox<[T]>::split_at / split_first / split_last / merge that Parts.v transcribes, read out on
+   every run (gen/PartsFacts.v): split_at panics exactly when the index exceeds the length and returns prefix and
+   suffix; split_first / split_last return the element and the rest; merge of sized elements requires the second part
+   to begin where the first ends and returns the left start with both lengths *)
+Theorem C16_source_parts_shapes_are_the_models : PartsFacts.parts_shapes_ok = true.
+Proof. vm_compute. reflexivity. Qed.
+
 Print Assumptions C16_split_off_code_spec.
 Print Assumptions C16_split_at_panics_iff.
 Print Assumptions C16_split_at_spec.
@@ -200,3 +207,4 @@ Print Assumptions C16_flatten_keeps_count_and_order.
 Print Assumptions C16_flatten_window_scales.
 Print Assumptions C16_source_split_off_windows_head_short.
 Print Assumptions C16_source_split_off_windows_tail_long.
+Print Assumptions C16_source_parts_shapes_are_the_models.
